@@ -330,7 +330,8 @@ CONFIG = {
         "aux_driver": {"exe": "scdriver", "ops": ["c14.screduce", "c14.scmuladd", "c14.sccanon", "c14.fe", "c14.fel", "c14.pt"]},
         "extra_modules": ["PatVerif.Proofs.Sig", "PatVerif.Proofs.DER", "PatVerif.Proofs.ScReduce", "PatVerif.Proofs.ScMulAdd", "PatVerif.Proofs.ScScalar",
                           "PatVerif.Proofs.FeCarry", "PatVerif.Proofs.FeMul", "PatVerif.Proofs.FeMisc", "PatVerif.Proofs.FeBytes", "PatVerif.Proofs.FePow",
-                          "PatVerif.Proofs.FeAbs", "PatVerif.Proofs.FeField", "PatVerif.Proofs.FeSqrt", "PatVerif.Proofs.EdPoints", "PatVerif.Proofs.EdDecode", "PatVerif.Proofs.SkelEd25519"],
+                          "PatVerif.Proofs.FeAbs", "PatVerif.Proofs.FeField", "PatVerif.Proofs.FeSqrt", "PatVerif.Proofs.EdPoints", "PatVerif.Proofs.EdDecode", "PatVerif.Proofs.SkelEd25519",
+                          "PatVerif.Proofs.PrimeP", "PatVerif.Proofs.FeInv"],
         "contradicts": "PatVerif.Props.C14",
     },
     "C15": {
@@ -352,7 +353,8 @@ CONFIG = {
         "aux_driver": {"exe": "scdriver", "ops": ["c14.screduce", "c14.scmuladd", "c14.sccanon", "c14.fe", "c14.fel", "c14.pt"]},
         "extra_modules": ["PatVerif.Proofs.Group", "PatVerif.Proofs.Sig", "PatVerif.Proofs.ScReduce", "PatVerif.Proofs.ScMulAdd", "PatVerif.Proofs.ScScalar",
                           "PatVerif.Proofs.FeCarry", "PatVerif.Proofs.FeMul", "PatVerif.Proofs.FeMisc", "PatVerif.Proofs.FeBytes", "PatVerif.Proofs.FePow",
-                          "PatVerif.Proofs.FeAbs", "PatVerif.Proofs.FeField", "PatVerif.Proofs.FeSqrt", "PatVerif.Proofs.EdPoints", "PatVerif.Proofs.EdDecode", "PatVerif.Proofs.SkelEd25519"],
+                          "PatVerif.Proofs.FeAbs", "PatVerif.Proofs.FeField", "PatVerif.Proofs.FeSqrt", "PatVerif.Proofs.EdPoints", "PatVerif.Proofs.EdDecode", "PatVerif.Proofs.SkelEd25519",
+                          "PatVerif.Proofs.PrimeP", "PatVerif.Proofs.FeInv"],
         "contradicts": "PatVerif.Props.C15",
     },
     "C16": {
